@@ -1,7 +1,8 @@
 """C09, family 'adapter': the chains that litex.soc.integration.soc.SoCBusHandler.add_adapter() builds between an
 interface of one standard / addressing and the bus standard (addressing conversion, standard bridges), in both
 directions (m2s: a master's interface adapted to the bus; s2m: the bus adapted to a peripheral's interface).
-32-bit data on both sides (the data-width converters have their own families); memory semantics oracle: every read
+Data widths 16/32/64 on the interface and 32/64 on the bus (add_adapter then chains data-width converter, addressing
+conversion and standard bridge); memory semantics oracle: every read
 returns, per byte, the last enabled write (or the initial content), the store ends up with the written bytes, every
 request gets one response, and the slave side sees only protocol-legal traffic (the agents' own monitors)."""
 from dsim import prng
@@ -22,16 +23,30 @@ def generate(rng, tier):
     bus_std = rng.choice(["wishbone", "axi-lite", "axi"])
     iface = rng.choice([k for k in KINDS if k != bus_std])
     n = rng.randint(15, 45)
-    base = rng.choice([0, 0x100, 0x4000000])
+    base = rng.choice([0, 0x100, 0x400000])
+    # data widths: mostly equal (no converter), otherwise the interface wider or narrower than the bus
+    dw_bus = rng.choice([32, 32, 32, 64])
+    dw_if = rng.choice([dw_bus, dw_bus, 16, 32, 64])
+    dw_m, dw_s = (dw_if, dw_bus) if direction == "m2s" else (dw_bus, dw_if)
+    if iface == "axi" and dw_m < dw_s:
+        dw_if = dw_bus          # (AXIUpConverter only takes bursts that fill whole wide words: C10's subject, not single beats)
+        dw_m = dw_s = dw_bus
+    if iface == "wishbone-byte" and dw_if != dw_bus:
+        iface = "wishbone"      # (wishbone.Converter asserts word addressing)
+    nbm = dw_m // 8
+    full = (1 << nbm) - 1
     ops = []
     for _ in range(n):
         word = base + rng.randrange(8)
         if rng.random() < 0.5:
-            ops.append({"kind": "w", "word": word, "data": rng.getrandbits(32), "strb": rng.choice([15, 15, 15, 3, 12, 5, 8, 1]), "gap": rng.choice([0, 0, 1, 3])})
+            strb = full if rng.random() < 0.5 else rng.choice([rng.getrandbits(nbm), 1 << rng.randrange(nbm), full & 0x0f0f0f0f, full ^ 1])
+            ops.append({"kind": "w", "word": word, "data": rng.getrandbits(dw_m), "strb": strb, "gap": rng.choice([0, 0, 1, 3])})
         else:
             ops.append({"kind": "r", "word": word, "gap": rng.choice([0, 0, 1, 3])})
-    return {"family": "adapter", "params": {"family": "adapter", "direction": direction, "bus": bus_std, "iface": iface},
-            "ops": ops, "max_out": rng.choice([1, 1, 2]),
+    # (AXILiteUpConverter with more than one request outstanding: listed finding C09-F2)
+    one = iface == "axi-lite" and dw_m < dw_s
+    return {"family": "adapter", "params": {"family": "adapter", "direction": direction, "bus": bus_std, "iface": iface, "dw_if": dw_if, "dw_bus": dw_bus},
+            "ops": ops, "max_out": 1 if one else rng.choice([1, 1, 2]),
             "bready": prng.pattern(rng, 300, rng.choice([1.0, 0.6, 0.3])), "rready": prng.pattern(rng, 300, rng.choice([1.0, 0.6, 0.3])),
             "slave": {"aw": prng.pattern(rng, 300, rng.choice([1.0, 0.7, 0.3])), "w": prng.pattern(rng, 300, rng.choice([1.0, 0.7, 0.3])),
                       "ar": prng.pattern(rng, 300, rng.choice([1.0, 0.7, 0.3])), "lat": [rng.choice([0, 1, 3, 7]) for _ in range(8)],
@@ -39,15 +54,15 @@ def generate(rng, tier):
                       "depth": 1, "wb_lat": [rng.choice([1, 1, 2, 5]) for _ in range(8)]}}
 
 
-def mk_iface(kind):
+def mk_iface(kind, dw=32):
     from litex.soc.interconnect import wishbone, axi
     if kind == "wishbone":
-        return wishbone.Interface(data_width=32, address_width=32, addressing="word")
+        return wishbone.Interface(data_width=dw, address_width=32, addressing="word")
     if kind == "wishbone-byte":
-        return wishbone.Interface(data_width=32, address_width=32, addressing="byte")
+        return wishbone.Interface(data_width=dw, address_width=32, addressing="byte")
     if kind == "axi-lite":
-        return axi.AXILiteInterface(data_width=32, address_width=32)
-    return axi.AXIInterface(data_width=32, address_width=32, id_width=1)
+        return axi.AXILiteInterface(data_width=dw, address_width=32)
+    return axi.AXIInterface(data_width=dw, address_width=32, id_width=1)
 
 
 def kind_of(iface):
@@ -70,50 +85,54 @@ def run(scn):
     def V(cls, obs, msg, cycle=None):
         if len(viols) < 5:
             viols.append({"prop": "C09", "cls": cls, "observable": obs, "msg": msg, "cycle": cycle})
-    handler = SoCBusHandler(standard=p["bus"], data_width=32, address_width=32)
-    iface = mk_iface(p["iface"])
+    dw_if, dw_bus = p.get("dw_if", 32), p.get("dw_bus", 32)
+    handler = SoCBusHandler(standard=p["bus"], data_width=dw_bus, address_width=32)
+    iface = mk_iface(p["iface"], dw_if)
     adapted = handler.add_adapter("dut", iface, direction=p["direction"])
     top = Module()
     top.submodules.handler = handler
     m_if, s_if = (iface, adapted) if p["direction"] == "m2s" else (adapted, iface)
     mk, sk = kind_of(m_if), kind_of(s_if)
+    nbm, nbs = m_if.data_width // 8, s_if.data_width // 8
+    lm, ls = (nbm - 1).bit_length(), (nbs - 1).bit_length()
+    fullm = (1 << nbm) - 1
     ops = scn["ops"]
     bench = Bench(wrap_top(top), max_cycles=len(ops) * 80 + 500, tail=8, fingerprint=False)
     # ---- master
     if mk.startswith("wishbone"):
-        sh = 2 if mk == "wishbone-byte" else 0
-        mops = [{"we": int(o["kind"] == "w"), "adr": o["word"] << sh, "dat": o.get("data", 0), "sel": o.get("strb", 15) if o["kind"] == "w" else 15,
+        sh = lm if mk == "wishbone-byte" else 0
+        mops = [{"we": int(o["kind"] == "w"), "adr": o["word"] << sh, "dat": o.get("data", 0), "sel": o.get("strb", fullm) if o["kind"] == "w" else fullm,
                  "gap": o["gap"], "keep_cyc": 0} for o in ops]
         ma = bench.add(WBMaster(m_if, mops, name="m"))
     elif mk == "axi-lite":
         mops = []
         for o in ops:
             if o["kind"] == "w":
-                mops.append({"kind": "w", "addr": o["word"] * 4, "data": o["data"], "strb": o["strb"], "aw_gap": o["gap"], "w_gap": o["gap"] // 2})
+                mops.append({"kind": "w", "addr": o["word"] * nbm, "data": o["data"], "strb": o["strb"], "aw_gap": o["gap"], "w_gap": o["gap"] // 2})
             else:
-                mops.append({"kind": "r", "addr": o["word"] * 4, "ar_gap": o["gap"]})
+                mops.append({"kind": "r", "addr": o["word"] * nbm, "ar_gap": o["gap"]})
         ma = bench.add(AXILMaster(m_if, mops, name="m", max_out=scn["max_out"], bready=scn["bready"], rready=scn["rready"],
-                                  hazard=True, word_shift=2, hazard_key=lambda a: a >> 2))
+                                  hazard=True, word_shift=lm, hazard_key=lambda a: a >> lm))
     else:
         mops = []
         for o in ops:
             if o["kind"] == "w":
-                mops.append({"kind": "w", "addr": o["word"] * 4, "len": 0, "size": 2, "burst": 1, "id": 0, "data": [o["data"]], "strb": [o["strb"]],
+                mops.append({"kind": "w", "addr": o["word"] * nbm, "len": 0, "size": lm, "burst": 1, "id": 0, "data": [o["data"]], "strb": [o["strb"]],
                              "gap": o["gap"], "wgaps": [o["gap"] // 2]})
             else:
-                mops.append({"kind": "r", "addr": o["word"] * 4, "len": 0, "size": 2, "burst": 1, "id": 0, "gap": o["gap"]})
-        ma = bench.add(AXIMaster(m_if, mops, name="m", max_out=scn["max_out"], bready=scn["bready"], rready=scn["rready"], hazard_key=lambda a: a >> 2))
+                mops.append({"kind": "r", "addr": o["word"] * nbm, "len": 0, "size": lm, "burst": 1, "id": 0, "gap": o["gap"]})
+        ma = bench.add(AXIMaster(m_if, mops, name="m", max_out=scn["max_out"], bready=scn["bready"], rready=scn["rready"], hazard_key=lambda a: a >> lm))
     # ---- slave (memory)
     sc = scn["slave"]
     if sk.startswith("wishbone"):
-        shs = 2 if sk == "wishbone-byte" else 0
-        sa = bench.add(WBSlave(s_if, sc["wb_lat"], name="s", init=lambda a, shs=shs: sum(hb((a >> shs) * 4 + i) << (8 * i) for i in range(4))))
+        shs = ls if sk == "wishbone-byte" else 0
+        sa = bench.add(WBSlave(s_if, sc["wb_lat"], name="s", init=lambda a, shs=shs: sum(hb((a >> shs) * nbs + i) << (8 * i) for i in range(nbs))))
         sa.key_shift = shs
-        store_byte = lambda b_, shs=shs: (sa.read_word((b_ >> 2) << shs) >> (8 * (b_ & 3))) & 0xff  # noqa
+        store_byte = lambda b_, shs=shs: (sa.read_word((b_ >> ls) << shs) >> (8 * (b_ & (nbs - 1)))) & 0xff  # noqa
     elif sk == "axi-lite":
         sa = bench.add(AXILSlave(s_if, name="s", awready="" if mk == "axi" else sc["aw"], wready=sc["w"], arready=sc["ar"], lat=sc["lat"],
-                                 depth=sc["depth"], read_data=lambda a: sum(hb(a + i) << (8 * i) for i in range(4)), memory=True))
-        store_byte = lambda b_: (sa._rdata(b_ & ~3) >> (8 * (b_ & 3))) & 0xff  # noqa
+                                 depth=sc["depth"], read_data=lambda a: sum(hb(a + i) << (8 * i) for i in range(nbs)), memory=True))
+        store_byte = lambda b_: (sa._rdata(b_ & ~(nbs - 1)) >> (8 * (b_ & (nbs - 1)))) & 0xff  # noqa
     else:
         sa = bench.add(AXISlave(s_if, name="s", awready=sc["aw"], wready=sc["w"], arready=sc["ar"], lat=sc["lat"], depth=max(sc["depth"], 2), init=hb))
         store_byte = sa.rbyte
@@ -161,8 +180,8 @@ def run(scn):
         if not ok:
             V("error_response", "master", "op #%d (%s word %#x) answered with an error / malformed response; the slave never errs" % (k, o["kind"], o["word"]))
             break
-        for i in range(4):
-            b_ = o["word"] * 4 + i
+        for i in range(nbm):
+            b_ = o["word"] * nbm + i
             if o["kind"] == "w":
                 if (o["strb"] >> i) & 1:
                     ref[b_] = (o["data"] >> (8 * i)) & 0xff
@@ -190,5 +209,6 @@ def run(scn):
                 break
     stats = {"cycles": bench.cycle["sys"], "checks": checks, "nontrivial": bool(raw and len(ops) >= 10),
              "faults": {"stall_cycles": getattr(ma, "wait_cycles", 0) or (sum(ma.stall.values()) if isinstance(getattr(ma, "stall", None), dict) else getattr(ma, "stall", 0))},
-             "probes": {"adapter_%s_%s_to_%s" % (p["direction"], mk, sk): 1, "read_after_write_lanes": raw}}
+             "probes": {"adapter_%s_%s_to_%s" % (p["direction"], mk, sk): 1, "read_after_write_lanes": raw,
+                        "adapter_width_%s" % ("same" if nbm == nbs else "down" if nbm > nbs else "up"): 1}}
     return {"violations": viols, "digest": bench.digest(), "stats": stats}
